@@ -1066,6 +1066,14 @@ namespace sim
 		aux::pcap* get_pcap() const { return m_pcap.get(); }
 		void log_pcap(char const* filename);
 
+#ifdef LIBSIMULATOR_VERIF
+		// verification hook: called from run() with kind 3 at the top of every
+		// round (before polling), kind 0 after every executed handler and kind 1
+		// right after the clock was advanced (timer queue mutex held: the
+		// callee must only record, not call back into the simulation)
+		std::function<void(int)> verif_step_hook;
+#endif
+
 	private:
 		struct timer_compare
 		{
